@@ -200,7 +200,7 @@ R18.6 the follow-up run gives every interface selected by the written 'all: true
 			if p.Exit == "end" || p.Exit == "return" {
 				enc := p.CallsTo("yaml.v3.NewEncoder")
 				if len(enc) != 1 || len(enc[0].Args) != 1 || !strings.Contains(enc[0].Args[0], ".OpenFile<") || !strings.HasSuffix(enc[0].Args[0], "#0") {
-					if !failingExit(info, p, false) {
+					if !failingExit(info, p, returnsErrorLast(info, fd.Type)) {
 						okEnc = false
 					}
 				}
@@ -214,10 +214,60 @@ R18.6 the follow-up run gives every interface selected by the written 'all: true
 	// R18.2
 	c.Rule("R18.2", 3, "")
 	errorPaths(c, r, "R18.2", cmdp, fd, nil)
+	// an initRun that hands its failure back: every caller must turn it into a non-zero exit
+	if returnsErrorLast(info, fd.Type) {
+		fnObj := info.Defs[fd.Name]
+		nCallers := 0
+		for _, g := range pkgFuncDecls(cmdp) {
+			for _, rg := range regionsOf(g) {
+				direct := false
+				for _, st := range rg.list {
+					ast.Inspect(st, func(n ast.Node) bool {
+						if _, isLit := n.(*ast.FuncLit); isLit {
+							return false
+						}
+						if call, ok := n.(*ast.CallExpr); ok {
+							if id, ok := ast.Unparen(call.Fun).(*ast.Ident); ok && info.Uses[id] == fnObj {
+								direct = true
+							}
+						}
+						return true
+					})
+				}
+				if !direct {
+					continue
+				}
+				nCallers++
+				d := newDT(info)
+				d.paths = nil
+				d.stmts(seedEnv(d, g), rg.list, func(p *dtPath) { d.finish(p, "end") })
+				good := len(d.paths) > 0
+				for _, p := range d.paths {
+					for _, a := range p.Atoms {
+						if a.Err && !a.Val && strings.Contains(a.Expr, "internal/cmd.initRun(") && !failingExit(info, p, returnsErrorLast(info, g.Type)) {
+							good = false
+						}
+					}
+					// the result must be examined at all
+					examined := false
+					for _, a := range p.Atoms {
+						if a.Err && strings.Contains(a.Expr, "internal/cmd.initRun(") {
+							examined = true
+						}
+					}
+					if !examined && len(p.CallsTo("internal/cmd.initRun")) > 0 {
+						good = false
+					}
+				}
+				c.Check(good, "R18.2", "initRun|caller|"+g.Name.Name, r.Pos(g.Pos()), "the caller exits non-zero when initRun fails", g.Name.Name+" calls initRun and does not turn a returned error into a non-zero exit status: a failed init (existing file, write error) would report success")
+			}
+		}
+		c.Check(nCallers > 0, "R18.2", "initRun|callers", r.Pos(fd.Pos()), "callers examined", "initRun returns an error but no caller was found to examine")
+	}
 	// R18.3
 	fci := newFuncCanon(info, fd)
 	okDefaults := false
-	ast.Inspect(fd.Body, func(n ast.Node) bool {
+	inspectWithHelpers(cmdp, fd, fci, 2, func(fci *fcanon, _ *ast.FuncDecl, n ast.Node) bool {
 		if call, ok := n.(*ast.CallExpr); ok && strings.HasSuffix(calleeName(info, call), "koanf/v2.Koanf).Unmarshal") && len(call.Args) == 2 {
 			recv := fci.E(call.Fun.(*ast.SelectorExpr).X)
 			if strings.HasPrefix(recv, "config.NewDefaultKoanf(") && strings.HasSuffix(recv, "#0") && typeIs(info.TypeOf(call.Args[1]), "*config.RootConfig") {
@@ -240,21 +290,23 @@ R18.6 the follow-up run gives every interface selected by the written 'all: true
 		if nd := FuncDecl(r.Pkg("config"), "NewDefaultKoanf"); nd != nil {
 			cinfo := r.Pkg("config").TypesInfo
 			var provs []string
-			ast.Inspect(nd.Body, func(n ast.Node) bool {
-				if call, ok := n.(*ast.CallExpr); ok && strings.HasSuffix(calleeName(cinfo, call), "koanf/v2.Koanf).Load") && len(call.Args) >= 1 {
-					if t := cinfo.TypeOf(call.Args[0]); t != nil {
-						provs = append(provs, t.String())
+			for _, g := range withCallees(r.Pkg("config"), nd) {
+				ast.Inspect(g.Body, func(n ast.Node) bool {
+					if call, ok := n.(*ast.CallExpr); ok && strings.HasSuffix(calleeName(cinfo, call), "koanf/v2.Koanf).Load") && len(call.Args) >= 1 {
+						if t := cinfo.TypeOf(call.Args[0]); t != nil {
+							provs = append(provs, t.String())
+						}
 					}
-				}
-				return true
-			})
+					return true
+				})
+			}
 			okOnly := len(provs) == 1 && strings.Contains(provs[0], "providers/structs.")
 			c.Check(okOnly, "R18.3", "NewDefaultKoanf|defaults-only", r.Pos(nd.Pos()), "NewDefaultKoanf loads the defaults struct only", fmt.Sprintf("NewDefaultKoanf loads %v: what `mockery init` writes as defaults must not depend on the environment, a file or flags of the init run", provs))
 		}
 		c.Check(uses, "R18.3", "NewRootConfig|defaults", r.Pos(nr.Pos()), "the loader uses the same defaults", "NewRootConfig no longer starts from NewDefaultKoanf")
 	}
 	okPkgs := false
-	ast.Inspect(fd.Body, func(n ast.Node) bool {
+	inspectWithHelpers(cmdp, fd, fci, 2, func(fci *fcanon, _ *ast.FuncDecl, n ast.Node) bool {
 		as, ok := n.(*ast.AssignStmt)
 		if !ok || len(as.Lhs) != 1 || len(as.Rhs) != 1 {
 			return true
@@ -331,44 +383,136 @@ R19.6 what migrate writes is loadable: yaml and koanf names agree for every conf
 		return
 	}
 	v2param := declParamName(mc, i2)
-	fcm := newFuncCanon(info, mc)
+	_ = v2param
+	fcm0 := newFuncCanon(info, mc)
 	v3p, v2p := fmt.Sprintf("*ARG%d.", i3), fmt.Sprintf("ARG%d.", i2)
 	seenDirect, seenTD := map[string]bool{}, map[string]bool{}
 	funcs := pkgFuncs(cmdp)
 	isTDSetter := func(fd *ast.FuncDecl) bool { return isTemplateDataSetter(info, fd) }
-	var walk func(list []ast.Stmt, guards []string)
-	walk = func(list []ast.Stmt, guards []string) {
+	sectionNil := "!(" + strings.TrimSuffix(v2p, ".") + " == nil)"
+	// a guard that does not narrow the condition 'src != nil': the section's own nil check, or the
+	// complement of an early return taken only when src (and possibly other v2 keys) is nil
+	neutralFor := func(g, src string) bool {
+		if g == sectionNil {
+			return true
+		}
+		if !strings.HasPrefix(g, "!(") || !strings.HasSuffix(g, ")") || src == "" {
+			return false
+		}
+		has := false
+		for _, cj := range strings.Split(g[2:len(g)-1], " && ") {
+			if !strings.HasPrefix(cj, v2p) || !strings.HasSuffix(cj, " == nil") {
+				return false
+			}
+			if cj == v2p+src+" == nil" {
+				has = true
+			}
+		}
+		return has
+	}
+	var walk func(fcm *fcanon, subs [][2]string, list []ast.Stmt, guards []string, depth int)
+	walk = func(fcm *fcanon, subs [][2]string, list []ast.Stmt, guards []string, depth int) {
+		E := func(e ast.Expr) string {
+			s := fcm.E(e)
+			for _, sb := range subs {
+				s = replaceToken(s, sb[0], sb[1])
+			}
+			return strings.ReplaceAll(s, "*&", "")
+		}
+		guards = append([]string{}, guards...)
 		for _, s := range list {
 			if es, ok := s.(*ast.ExprStmt); ok {
-				// setter(v3, "key", value) counts as v3.TemplateData["key"] = value
-				if call, ok := es.X.(*ast.CallExpr); ok && len(call.Args) == 3 {
-					if fn := calleeFunc(info, call); fn != nil && isTDSetter(funcs[fn]) && fcm.E(call.Args[0])+"." == v3p {
+				if call, ok := es.X.(*ast.CallExpr); ok {
+					fn := calleeFunc(info, call)
+					// setter(v3, "key", value) counts as v3.TemplateData["key"] = value
+					if len(call.Args) == 3 && fn != nil && isTDSetter(funcs[fn]) && E(call.Args[0])+"." == v3p {
 						s = &ast.AssignStmt{
 							Lhs:    []ast.Expr{&ast.IndexExpr{X: &ast.SelectorExpr{X: call.Args[0], Sel: ast.NewIdent("TemplateData")}, Index: call.Args[1]}},
 							TokPos: call.Pos(), Tok: token.ASSIGN,
 							Rhs: []ast.Expr{call.Args[2]},
 						}
+					} else if fd := funcs[fn]; fn != nil && fd != nil && fd.Recv == nil && fd.Body != nil && depth < 3 {
+						// a helper that is handed the v3 level: its body is part of the mapping
+						seed := make([]string, len(call.Args))
+						touches := false
+						for i, a := range call.Args {
+							seed[i] = E(a)
+							if seed[i]+"." == v3p || seed[i] == "&"+strings.TrimSuffix(v3p, ".") || "*"+seed[i]+"." == v3p {
+								touches = true
+							}
+						}
+						if touches && !(call.Ellipsis.IsValid()) && fd.Type.Params.NumFields() == len(call.Args) {
+							c.Func(funcKey(cmdp, fd))
+							walk(newFuncCanonSeed(info, fd, false, nil, seed), nil, fd.Body.List, guards, depth+1)
+							continue
+						}
 					}
 				}
 			}
 			switch x := s.(type) {
+			case *ast.BlockStmt:
+				walk(fcm, subs, x.List, guards, depth)
 			case *ast.IfStmt:
-				walk(x.Body.List, append(append([]string{}, guards...), fcm.E(x.Cond)))
+				walk(fcm, subs, x.Body.List, append(append([]string{}, guards...), E(x.Cond)), depth)
 				if eb, ok := x.Else.(*ast.BlockStmt); ok {
-					walk(eb.List, append(append([]string{}, guards...), "!("+fcm.E(x.Cond)+")"))
+					walk(fcm, subs, eb.List, append(append([]string{}, guards...), "!("+E(x.Cond)+")"), depth)
+				} else if x.Else == nil && terminates(x.Body) {
+					// early exit: what follows runs only when the condition is false
+					guards = append(guards, "!("+E(x.Cond)+")")
+				}
+			case *ast.RangeStmt:
+				// a loop over a literal table of (destination, source) rows is the unrolled list of its bodies
+				cl, ok := ast.Unparen(x.X).(*ast.CompositeLit)
+				vid, ok2 := x.Value.(*ast.Ident)
+				if !ok || !ok2 {
+					continue
+				}
+				var st *types.Struct
+				switch t := info.TypeOf(cl).Underlying().(type) {
+				case *types.Slice:
+					st, _ = t.Elem().Underlying().(*types.Struct)
+				case *types.Array:
+					st, _ = t.Elem().Underlying().(*types.Struct)
+				}
+				if st == nil {
+					continue
+				}
+				base := fcm.E(vid)
+				for _, el := range cl.Elts {
+					row, ok := ast.Unparen(el).(*ast.CompositeLit)
+					if !ok {
+						continue
+					}
+					rs := append([][2]string{}, subs...)
+					for i, fe := range row.Elts {
+						name, val := "", fe
+						if kv, ok := fe.(*ast.KeyValueExpr); ok {
+							name, val = types.ExprString(kv.Key), kv.Value
+						} else if i < st.NumFields() {
+							name = st.Field(i).Name()
+						}
+						rs = append(rs, [2]string{base + "." + name, E(val)})
+					}
+					walk(fcm, rs, x.Body.List, guards, depth)
 				}
 			case *ast.AssignStmt:
 				if len(x.Lhs) != 1 || len(x.Rhs) != 1 {
 					continue
 				}
-				lhs := fcm.E(x.Lhs[0])
-				rhs := fcm.E(x.Rhs[0])
+				lhs := E(x.Lhs[0])
+				rhs := E(x.Rhs[0])
 				switch {
 				case strings.HasPrefix(lhs, v3p+"TemplateData[\""):
 					key := strings.TrimSuffix(strings.TrimPrefix(lhs, v3p+"TemplateData[\""), "\"]")
 					src := strings.TrimPrefix(strings.TrimPrefix(rhs, "*"), v2p)
 					want, ok := migrateTemplateData[v2yaml[src]]
-					guardOK := len(guards) == 1 && guards[0] == v2p+src+" != nil"
+					var eff []string
+					for _, g := range guards {
+						if !neutralFor(g, src) {
+							eff = append(eff, g)
+						}
+					}
+					guardOK := len(eff) == 1 && eff[0] == v2p+src+" != nil"
 					pos := r.Pos(x.Pos())
 					switch {
 					case !ok || want != key:
@@ -384,11 +528,17 @@ R19.6 what migrate writes is loadable: yaml and koanf names agree for every conf
 					src := strings.TrimPrefix(rhs, v2p)
 					pos := r.Pos(x.Pos())
 					want, ok := migrateDirect[v2yaml[src]]
+					var eff []string
+					for _, g := range guards {
+						if g != sectionNil {
+							eff = append(eff, g)
+						}
+					}
 					switch {
 					case !strings.HasPrefix(rhs, v2p) || !ok || want != v3koanf[field]:
 						c.Fail("R19.1", "migrateConfig|direct|"+v3koanf[field], pos, fmt.Sprintf("v3 %q is assigned from %s (v2 %q); documented source: the v2 key mapped to it", v3koanf[field], types.ExprString(x.Rhs[0]), v2yaml[src]))
-					case len(guards) != 0:
-						c.Fail("R19.1", "migrateConfig|direct-conditional|"+v3koanf[field], pos, fmt.Sprintf("v3 %q is copied only under %v: the setting is dropped at levels where that condition does not hold although configuration is inherited across levels", v3koanf[field], guards))
+					case len(eff) != 0:
+						c.Fail("R19.1", "migrateConfig|direct-conditional|"+v3koanf[field], pos, fmt.Sprintf("v3 %q is copied only under %v: the setting is dropped at levels where that condition does not hold although configuration is inherited across levels", v3koanf[field], eff))
 					default:
 						seenDirect[v2yaml[src]] = true
 						c.OK("R19.1", "migrateConfig|direct|"+v3koanf[field], pos, v2yaml[src]+" -> "+v3koanf[field])
@@ -397,7 +547,7 @@ R19.6 what migrate writes is loadable: yaml and koanf names agree for every conf
 			}
 		}
 	}
-	walk(mc.Body.List, nil)
+	walk(fcm0, nil, mc.Body.List, nil, 0)
 	for k := range migrateDirect {
 		if !seenDirect[k] {
 			c.Fail("R19.1", "migrateConfig|unmapped|"+k, r.Pos(mc.Pos()), "the v2 setting "+k+" is no longer carried to "+migrateDirect[k])
@@ -599,33 +749,80 @@ func ruleMigrateRun(c *Ctx, r *Repo, cmdp *packages.Package) {
 			sites = append(sites, e)
 		}
 	}
-	// the path each open is applied to, in terms of run's own parameters (the opens may sit in private
-	// helpers: run's paths are enumerated with calls of unexported functions followed)
-	openRecv := map[token.Pos]string{}
+	// Every (path, flags) pair an OpenFile call is reached with; the flags are evaluated along the path, so
+	// a helper that picks them from a parameter is seen with the value each caller passes.
+	type openInst struct {
+		pos         token.Pos
+		recv, flags string
+	}
+	var opens []openInst
+	reached := map[token.Pos]bool{}
 	{
 		d := newDT(info)
-		d.callInline = pkgUnexported(cmdp)
-		d.paths = nil
-		d.stmts(seedEnv(d, run), run.Body.List, func(p *dtPath) { d.finish(p, "end") })
-		for _, p := range d.paths {
-			for _, call := range p.CallsTo("pathlib.Path).OpenFile") {
-				openRecv[call.Pos] = call.Recv
+		// followed: the private helpers an effect site sits in (not migrateConfig, whose independent
+		// branches are not path-enumerable and which reaches no effect)
+		d.callInline = map[*types.Func]*ast.FuncDecl{}
+		for fn, fd := range pkgUnexported(cmdp) {
+			for _, g := range withCallees(cmdp, fd) {
+				for _, e := range sites {
+					if e.Func == funcKey(cmdp, g) {
+						d.callInline[fn] = fd
+					}
+				}
 			}
 		}
+		d.paths = nil
+		d.stmts(seedEnv(d, run), run.Body.List, func(p *dtPath) { d.finish(p, "end") })
+		seen := map[openInst]bool{}
+		for _, p := range d.paths {
+			for _, call := range p.CallsTo("pathlib.Path).OpenFile") {
+				reached[call.Pos] = true
+				oi := openInst{call.Pos, call.Recv, strings.Join(call.Args, ",")}
+				if !seen[oi] {
+					seen[oi] = true
+					opens = append(opens, oi)
+				}
+			}
+		}
+		c.Check(!d.overflow, "R19.3", "run|paths", r.Pos(run.Pos()), "run's paths enumerated", "run has too many paths to enumerate: not decided")
 	}
 	nRead, nWrite := 0, 0
+	counted := map[string]bool{}
+	count := func(oi openInst, n *int) {
+		if k := fmt.Sprint(oi.pos, oi.flags); !counted[k] {
+			counted[k] = true
+			*n++
+		}
+	}
 	for _, e := range sites {
-		fl := "|" + e.Flags + "|"
+		if strings.HasSuffix(e.Callee, ".OpenFile") {
+			c.Check(reached[e.Call.Pos()], "R19.3", "run|open-reached|"+e.Func, e.Pos, "the open lies on an enumerated path of run", "an OpenFile call owned by run is not on any enumerated path of run: its path and flags are not decided")
+			continue
+		}
+		c.Fail("R19.3", "run|other-mutator|"+e.Key(), e.Pos, "migrate's run calls "+e.Callee)
+	}
+	for _, oi := range opens {
+		var names []string
+		okFlags := true
+		for _, f := range strings.Split(oi.flags, " | ") {
+			f = strings.TrimSpace(f)
+			if !strings.HasPrefix(f, "os.O_") {
+				okFlags = false
+			}
+			names = append(names, strings.TrimPrefix(f, "os."))
+		}
+		fl := "|" + strings.Join(names, "|") + "|"
+		pos := r.Pos(oi.pos)
 		switch {
-		case !e.Write && strings.HasSuffix(e.Callee, ".OpenFile"):
-			nRead++
-			c.Check(openRecv[e.Call.Pos()] != "" && !strings.Contains(openRecv[e.Call.Pos()], "ARG2"), "R19.3", "run|input-read-only", e.Pos, "the v2 file is opened O_RDONLY", "the read-only open is not on the v2 config path")
-		case strings.HasSuffix(e.Callee, ".OpenFile"):
-			nWrite++
-			onOut := openRecv[e.Call.Pos()] == "github.com/chigopher/pathlib.NewPath(ARG2)"
-			c.Check(onOut && strings.Contains(fl, "|O_CREATE|") && (strings.Contains(fl, "|O_TRUNC|") || strings.Contains(fl, "|O_EXCL|")), "R19.3", "run|output-open", e.Pos, "the v3 file is opened "+e.Flags, fmt.Sprintf("the output is opened with %s on %s: without O_TRUNC a longer previous file leaves a stale tail in the result; the write must go to --outfile only", e.Flags, types.ExprString(e.Call.Fun)))
+		case !okFlags:
+			c.Fail("R19.3", "run|open-flags", pos, fmt.Sprintf("OpenFile is called with %s on %s: the flags do not evaluate to os.O_* constants along the path", oi.flags, oi.recv))
+		case fl == "|O_RDONLY|":
+			count(oi, &nRead)
+			c.Check(oi.recv != "" && !strings.Contains(oi.recv, "ARG2"), "R19.3", "run|input-read-only", pos, "the v2 file is opened O_RDONLY", "the read-only open is not on the v2 config path")
 		default:
-			c.Fail("R19.3", "run|other-mutator|"+e.Key(), e.Pos, "migrate's run calls "+e.Callee)
+			count(oi, &nWrite)
+			onOut := oi.recv == "github.com/chigopher/pathlib.NewPath(ARG2)"
+			c.Check(onOut && strings.Contains(fl, "|O_CREATE|") && (strings.Contains(fl, "|O_TRUNC|") || strings.Contains(fl, "|O_EXCL|")), "R19.3", "run|output-open", pos, "the v3 file is opened "+strings.Join(names, "|"), fmt.Sprintf("the output is opened with %s on %s: without O_TRUNC a longer previous file leaves a stale tail in the result; the write must go to --outfile only", strings.Join(names, "|"), oi.recv))
 		}
 	}
 	c.Check(nRead == 1 && nWrite == 1, "R19.3", "run|opens", r.Pos(run.Pos()), "one read-only open, one output open", fmt.Sprintf("%d read-only / %d writing opens in migrate's run, want 1/1", nRead, nWrite))
